@@ -235,6 +235,9 @@ def pat_matches(p, v, env):
                 if not pat_matches(f["pat"], v[2][f["name"]], env):
                     return False
             return True
+        if isinstance(v, tuple) and v and v[0] == "range" and path == "core::ops::range::Range" and not v[3]:
+            vals = {"start": v[1], "end": v[2]}
+            return all(pat_matches(f["pat"], vals[f["name"]], env) for f in p.get("fields", []))
         if isinstance(v, tuple) and v and v[0] == "v" and path and path.endswith("::Some") and v[1] == path:
             flds = p.get("fields", [])
             return all(pat_matches(f["pat"], v[2][int(f["name"])], env) for f in flds)
